@@ -1246,7 +1246,15 @@ class DtsAccessor:
             * param_covs["alpha_db"],
             ddb_dtaf=2 * deriv_ds2.T_db_w * deriv_ds2.T_taf_w * param_covs["tafw_db"],
             ddb_dtab=2 * deriv_ds2.T_db_w * deriv_ds2.T_tab_w * param_covs["tabw_db"],
-            # dtaf_dtab=2 * deriv_ds2.T_tab_w * deriv_ds2.T_tab_w * param_covs["tafw_tabw"],
+            dalpha_dtaf=2
+            * deriv_ds2.T_alpha_w
+            * deriv_ds2.T_taf_w
+            * param_covs["tafw_alpha"],
+            dalpha_dtab=2
+            * deriv_ds2.T_alpha_w
+            * deriv_ds2.T_tab_w
+            * param_covs["tabw_alpha"],
+            dtaf_dtab=2 * deriv_ds2.T_taf_w * deriv_ds2.T_tab_w * param_covs["tafw_tabw"],
         )
         out["var_w_da"] = xr.Dataset(var_w_dict).to_array(dim="comp_w")
         out["tmpw_var"] = out["var_w_da"].sum(dim="comp_w")
